@@ -11,6 +11,7 @@ import (
 	"fmt"
 	"go/ast"
 	"go/token"
+	"math"
 	"math/big"
 	"sort"
 	"strconv"
@@ -85,6 +86,13 @@ type trans struct {
 	loopN   int
 	aux     []string // auxiliary definitions (loops) of the function being translated
 	self    string
+	auxReg  map[string]auxInfo // "<func>#switch<i>" / "<func>#for<i>": definitions translated on their own
+}
+
+type auxInfo struct {
+	name     string
+	fv       []string // free variables = leading parameters, in this order
+	assigned []string // switch: the variables it returns; loop: the variables it carries
 }
 
 var mathConsts = map[string]string{
@@ -138,6 +146,13 @@ func lit(v *big.Int, ty gty) string {
 	if ty == "f64" && fxMode {
 		return fmt.Sprintf("(Go.FX.lit %q)", v.String())
 	}
+	if ty == "f64" || ty == "f32" {
+		f, _ := new(big.Float).SetInt(v).Float64()
+		if ty == "f32" {
+			return fmt.Sprintf("(%d : UInt32)", math.Float32bits(float32(f)))
+		}
+		return fmt.Sprintf("(%d : UInt64)", math.Float64bits(f))
+	}
 	if v.Sign() < 0 {
 		return fmt.Sprintf("(-(%s : %s))", new(big.Int).Neg(v).String(), leanTy(ty))
 	}
@@ -166,6 +181,13 @@ func (t *trans) expr(e ast.Expr, want gty) (string, gty) {
 		if x.Kind == token.FLOAT && fxMode {
 			return fmt.Sprintf("(Go.FX.lit %q)", x.Value), "f64"
 		}
+		if x.Kind == token.FLOAT {
+			f, err := strconv.ParseFloat(x.Value, 64)
+			if err != nil {
+				panic("translate: float literal " + x.Value)
+			}
+			return fmt.Sprintf("(%d : UInt64)", math.Float64bits(f)), "f64"
+		}
 	case *ast.Ident:
 		if x.Name == "true" || x.Name == "false" {
 			return x.Name, "bool"
@@ -188,6 +210,12 @@ func (t *trans) expr(e ast.Expr, want gty) (string, gty) {
 		case token.SUB:
 			if ty == "f64" && fxMode {
 				return "(Go.FX.neg " + s + ")", ty
+			}
+			if ty == "f64" {
+				return "(Go.f64neg " + s + ")", ty
+			}
+			if ty == "f32" {
+				return "(Go.f32neg " + s + ")", ty
 			}
 			return "(-" + s + ")", ty
 		case token.XOR:
@@ -260,6 +288,23 @@ func (t *trans) binary(x *ast.BinaryExpr, want gty) (string, gty) {
 		}
 		panic("translate: unsupported float operator " + x.Op.String())
 	}
+	if ty == "f64" {
+		// floats as bit patterns: only comparisons
+		switch x.Op {
+		case token.LEQ:
+			return "(Go.f64le " + a + " " + b + ")", "bool"
+		case token.LSS:
+			return "(Go.f64lt " + a + " " + b + ")", "bool"
+		case token.GEQ:
+			return "(Go.f64le " + b + " " + a + ")", "bool"
+		case token.GTR:
+			return "(Go.f64lt " + b + " " + a + ")", "bool"
+		}
+		panic("translate: arithmetic on a float bit pattern: " + x.Op.String())
+	}
+	if ty == "f32" {
+		panic("translate: operator on a float32 bit pattern: " + x.Op.String())
+	}
 	switch x.Op {
 	case token.ADD, token.SUB, token.MUL:
 		return "(" + a + " " + x.Op.String() + " " + b + ")", ty
@@ -330,15 +375,21 @@ func (t *trans) call(c *ast.CallExpr, want gty) (string, gty) {
 			a, _ := t.expr(c.Args[0], "f64")
 			b, _ := t.expr(c.Args[1], "f64")
 			return fmt.Sprintf("(Go.FX.call2 %q %s %s)", fn, a, b), "f64"
-		case "bits.Len64":
-			a, ty := t.expr(c.Args[0], "u64")
-			if ty != "u64" {
-				panic("translate: bits.Len64 of a non-uint64")
-			}
-			return "(Go.len64 " + a + ")", "i64"
 		}
 	}
 	switch fn {
+	case "bits.Len64":
+		a, ty := t.expr(c.Args[0], "u64")
+		if ty != "u64" {
+			panic("translate: bits.Len64 of a non-uint64")
+		}
+		return "(Go.len64 " + a + ")", "i64"
+	case "float32":
+		s, from := t.expr(c.Args[0], "f64")
+		if from != "f64" || fxMode {
+			panic("translate: float32 of " + string(from))
+		}
+		return "(fe.f64to32 " + s + ")", "f32"
 	case "uint64", "uint", "uint32", "int32", "int64", "int":
 		to := goTy(c.Fun)
 		if v, ok := t.constVal(c.Args[0]); ok {
@@ -722,6 +773,10 @@ func (t *trans) switchBlock(key string, idx int, leanName string, varTypes map[s
 	for _, a := range assigned {
 		resT = append(resT, varTypes[a])
 	}
+	if t.auxReg == nil {
+		t.auxReg = map[string]auxInfo{}
+	}
+	t.auxReg[fmt.Sprintf("%s#switch%d", key, idx)] = auxInfo{leanName, fv, assigned}
 	var b strings.Builder
 	for i, a := range arms {
 		val := "(" + strings.Join(a.vals, ", ") + ")"
@@ -855,6 +910,10 @@ func (t *trans) forLoop(key string, idx int, leanName string, varTypes map[strin
 		panic(fmt.Sprintf("translate: unsupported statement in a loop: %T", list[0]))
 	}
 	bodyS := body(loop.Body.List)
+	if t.auxReg == nil {
+		t.auxReg = map[string]auxInfo{}
+	}
+	t.auxReg[fmt.Sprintf("%s#for%d", key, idx)] = auxInfo{leanName, fv, mut}
 	var params []string
 	for _, v := range fv {
 		params = append(params, fmt.Sprintf("(%s : %s)", v, leanTy(varTypes[v])))
@@ -929,6 +988,10 @@ func emitTranslated(p *pkgInfo) (out string, err error) {
 	b.WriteString("\n")
 	b.WriteString(t.function("ufloat64FromParts", "ufloat64FromParts"))
 	b.WriteString("\n")
+	b.WriteString(t.function("float32FromParts", "float32FromParts"))
+	b.WriteString("\n")
+	b.WriteString(t.function("float64FromParts", "float64FromParts"))
+	b.WriteString("\n")
 	b.WriteString(t.function("jsf64ctx.rand", "jsfRand"))
 	b.WriteString("\n")
 	b.WriteString(t.function("repeat.reject", "repeatReject"))
@@ -976,7 +1039,12 @@ func emitTranslated(p *pkgInfo) (out string, err error) {
 	b.WriteString(t.exprFn("findBugSeedStep", "seed of the next test case in findBug", seedRhs, et, "u64"))
 	b.WriteString("\n/-! ### functions on the bit stream, in continuation-passing style over `Prog` -/\n\n")
 	for _, fn := range []string{"genFloat01", "genGeom", "genUintNNoReject", "genUintNUnbiased", "genUintNBiased", "genUintN", "genUintRange", "flipBiasedCoin", "genIntRange", "genIndex"} {
-		b.WriteString(t.progFunction(fn))
+		b.WriteString(t.progFunction(fn, true))
+		b.WriteString("\n")
+	}
+	b.WriteString("/-! ### floats.go: float64/float32 values are bit patterns here -/\n\n")
+	for _, fn := range []string{"genUfloatRange", "genFloatRange"} {
+		b.WriteString(t.progFunction(fn, false))
 		b.WriteString("\n")
 	}
 	b.WriteString("end Rapid.Translated\n")
